@@ -776,7 +776,7 @@ func (t *tokenizer) readEscapedChar(isClob bool) (rune, error) {
 		if err != nil {
 			return 0, err
 		}
-		if r < 0 || r > unicode.MaxRune {
+		if r < 0 || r > unicode.MaxRune || utf16.IsSurrogate(r) {
 			return 0, &SyntaxError{fmt.Sprintf("escape \\U%08X is not a Unicode code point", uint32(r)), t.pos - 10}
 		}
 		return r, nil
